@@ -63,6 +63,9 @@ impl From<DivideByZeroError> for StdError { fn from(e: DivideByZeroError) -> (r:
 pub assume_specification<T: PartialEq> [ <[T]>::contains ] (s: &[T], x: &T) -> (r: bool)
     ensures r == exists|i: int| 0 <= i < s@.len() && s@[i] == *x;
 
+pub assume_specification<T, E> [ Option::<Result<T, E>>::transpose ] (o: Option<Result<T, E>>) -> (r: Result<Option<T>, E>)
+    ensures r == (match o { None => Ok::<Option<T>, E>(None), Some(Ok(x)) => Ok(Some(x)), Some(Err(e)) => Err(e) });
+
 pub assume_specification [ String::into_bytes ] (s: String) -> (r: Vec<u8>)
     ensures r@ == utf8(s@);
 
@@ -75,6 +78,7 @@ pub uninterp spec fn utf8(s: Seq<char>) -> Seq<u8>;
 pub uninterp spec fn unutf8(b: Seq<u8>) -> Seq<char>;
 pub broadcast axiom fn ax_utf8(s: Seq<char>) ensures unutf8(#[trigger] utf8(s)) == s;
 
+pub open spec fn into_string_spec<T: Into<String>>(t: T) -> String { <T as IntoSpec<String>>::into_spec(t) }
 pub broadcast axiom fn ax_string_ext(a: String, b: String)
     ensures #![trigger a@, b@] a@ == b@ ==> a == b;
 
@@ -130,6 +134,11 @@ impl core::ops::Add<Uint128> for Uint128 {
     type Output = Uint128;
     #[verifier::external_body]
     fn add(self, rhs: Uint128) -> (r: Uint128) ensures self.0 + rhs.0 <= u128::MAX { Uint128(self.0 + rhs.0) }
+}
+impl AddAssignSpecImpl<Uint128> for Uint128 {
+    open spec fn obeys_add_assign_spec() -> bool { true }
+    open spec fn add_assign_req(&self, rhs: Uint128) -> bool { true }
+    open spec fn add_assign_spec(&self, rhs: Uint128) -> &Uint128 { &Uint128((self.0 + rhs.0) as u128) }
 }
 impl core::ops::AddAssign<Uint128> for Uint128 {
     #[verifier::external_body]
@@ -215,6 +224,14 @@ impl<'a> PartialEqSpecImpl<Addr> for &'a Addr {
     open spec fn eq_spec(&self, other: &Addr) -> bool { (**self).view() == other.view() }
 }
 impl<'a> PartialEq<Addr> for &'a Addr { #[verifier::external_body] fn eq(&self, other: &Addr) -> (r: bool) { unimplemented!() } }
+
+// std conversions into String (not specified by vstd): identity / same characters
+pub broadcast axiom fn ax_string_conv_obeys()
+    ensures #[trigger] <String as FromSpec<String>>::obeys_from_spec(), <String as FromSpec<&String>>::obeys_from_spec(), <String as FromSpec<&str>>::obeys_from_spec();
+pub broadcast axiom fn ax_string_from_string(s: String) ensures #[trigger] <String as FromSpec<String>>::from_spec(s) == s;
+pub broadcast axiom fn ax_string_from_ref(s: &String) ensures #[trigger] <String as FromSpec<&String>>::from_spec(s) == *s;
+pub broadcast axiom fn ax_string_from_str(s: &str) ensures (#[trigger] <String as FromSpec<&str>>::from_spec(s))@ == s@;
+pub broadcast group string_conv { ax_string_conv_obeys, ax_string_from_string, ax_string_from_ref, ax_string_from_str, ax_addr_to_string, ax_addr_ref_to_string }
 
 pub struct Binary(pub Vec<u8>);
 impl View for Binary { type V = Seq<u8>; open spec fn view(&self) -> Seq<u8> { self.0@ } }
@@ -517,6 +534,11 @@ impl<T> FromSpecImpl<DistributionMsg> for CosmosMsg<T> { open spec fn obeys_from
 impl<T> From<DistributionMsg> for CosmosMsg<T> { fn from(m: DistributionMsg) -> (r: Self) { CosmosMsg::Distribution(m) } }
 impl<T> FromSpecImpl<IbcMsg> for CosmosMsg<T> { open spec fn obeys_from_spec() -> bool { true } open spec fn from_spec(m: IbcMsg) -> Self { CosmosMsg::Ibc(m) } }
 impl<T> From<IbcMsg> for CosmosMsg<T> { fn from(m: IbcMsg) -> (r: Self) { CosmosMsg::Ibc(m) } }
+
+// identity conversion (std `impl<T> From<T> for T`) for messages
+pub broadcast axiom fn ax_cosmos_id_obeys<T>() ensures #[trigger] <CosmosMsg<T> as FromSpec<CosmosMsg<T>>>::obeys_from_spec();
+pub broadcast axiom fn ax_cosmos_id<T>(m: CosmosMsg<T>) ensures #[trigger] <CosmosMsg<T> as FromSpec<CosmosMsg<T>>>::from_spec(m) == m;
+pub broadcast group msg_conv { ax_cosmos_id_obeys, ax_cosmos_id }
 
 pub enum ReplyOn { Always, Error, Success, Never }
 pub struct SubMsg<T = Empty> { pub id: u64, pub msg: CosmosMsg<T>, pub gas_limit: Option<u64>, pub reply_on: ReplyOn }
